@@ -381,6 +381,7 @@ func init() {
 		c.ruleNoContentFailureInSharedTxPath("R9", 2)
 		c.ruleWiring("R10", c.constructorsIn("handlers", "spynode"))
 		c.ruleTrustedAnswerNeedsEntry("R11")
+		c.ruleSafeDecidedBeforeDelivery("R12")
 	}
 }
 
